@@ -433,10 +433,9 @@ def _run_body(spec):
 
 
 # ---------------------------------------------------------------- every public matcher has a str()
-def custom_all_matchers(ctx):
-    """Instantiate every public callable of testtools.matchers.__all__ and str() it."""
+def _samples():
     import testtools.matchers as tm
-    samples = {
+    return {
         "AfterPreprocessing": lambda: tm.AfterPreprocessing(len, tm.Equals(1)), "AllMatch": lambda: tm.AllMatch(tm.Equals(1)),
         "Always": tm.Always, "Annotate": lambda: tm.Annotate("x", tm.Equals(1)), "AnyMatch": lambda: tm.AnyMatch(tm.Equals(1)),
         "Contains": lambda: tm.Contains(1), "ContainsAll": lambda: tm.ContainsAll([1]), "ContainedByDict": lambda: tm.ContainedByDict({"a": tm.Equals(1)}),
@@ -455,21 +454,33 @@ def custom_all_matchers(ctx):
         "SameMembers": lambda: tm.SameMembers([1]), "SamePath": lambda: tm.SamePath("/"), "StartsWith": lambda: tm.StartsWith("a"),
         "TarballContains": lambda: tm.TarballContains(["a"]), "Warnings": lambda: tm.Warnings(), "WarningMessage": lambda: tm.WarningMessage(UserWarning),
     }
+
+
+def run_public(spec):
+    name = spec["matcher"]
+    samples = _samples()
+    vs = []
+    if name not in samples:
+        vs.append(V("str", "unknown-public-matcher-" + name, "no sample for public matcher %s" % name))
+    else:
+        m = samples[name]()
+        try:
+            if not isinstance(str(m), str):
+                vs.append(V("str", name + "-type", "str() not text"))
+        except Exception as e:
+            vs.append(V("str", "%s-raises-%s" % (name, type(e).__name__), "str(%s) raised %r" % (name, e)))
+    return Case(vs, True, ["public=" + name])
+
+
+def custom_all_matchers(ctx):
+    """Instantiate every public callable of testtools.matchers.__all__ and str() it."""
+    import testtools.matchers as tm
     out = []
     for name in tm.__all__:
         if name in ("Matcher", "Mismatch", "MismatchError", "MismatchDecorator"):
             continue
-        vs = []
-        if name not in samples:
-            vs.append(V("str", "unknown-public-matcher-" + name, "no sample for public matcher %s" % name))
-        else:
-            m = samples[name]()
-            try:
-                if not isinstance(str(m), str):
-                    vs.append(V("str", name + "-type", "str() not text"))
-            except Exception as e:
-                vs.append(V("str", "%s-raises-%s" % (name, type(e).__name__), "str(%s) raised %r" % (name, e)))
-        out.append(({"matcher": name}, Case(vs, True, ["public=" + name])))
+        spec = {"matcher": name}
+        out.append((spec, run_public(spec)))
     return out
 
 
@@ -480,5 +491,5 @@ def subchecks(tier):
         Sub("hostile_text", run_hostile, s_hostile(), 2500 if q else 200000),
         Sub("text_repr_roundtrip", run_text_repr, TEXT_REPR, 5000 if q else 500000),
         Sub("assert_expect_bodies", run_body, s_body(), 800 if q else 40000),
-        Sub("every_public_matcher_str", None, custom=custom_all_matchers),
+        Sub("every_public_matcher_str", run_public, custom=custom_all_matchers),
     ]
